@@ -321,6 +321,13 @@ def gen_config18(rng, idx=0):
         modes.append({'name': names[k], 'patterns': pats, 'transitions': []})
     if rng.random() < 0.5:
         gen.add_transitions(rng, modes)
+    if rng.random() < 0.25:
+        # long pattern texts with multi-byte characters at every byte alignment (titles and labels are derived from them)
+        m = rng.choice(modes)
+        used = set(p['t'] for p in m['patterns'])
+        fill = ''.join(rng.choice(['\u20ac', '\u00e9', '\U0001F600', 'a', 'b']) for _ in range(rng.randint(30, 70)))
+        m['patterns'].insert(0 if rng.random() < 0.7 else len(m['patterns']),
+                             {'p': 'x' * rng.randint(0, 3) + fill, 't': rng.choice([t for t in range(300, 320) if t not in used])})
     c = {'modes': modes, 'prefix': rng.choice(PREFIXES)}
     if rng.random() < 0.3:
         # the folder already holds the export of a LARGER configuration with the same prefix and mode names
